@@ -21,6 +21,8 @@ pub struct Job {
     pub want_spec: bool,
     #[serde(default)]
     pub spec: Option<RunSpec>,
+    #[serde(default)]
+    pub want_trace: bool,
 }
 
 pub fn setup_process() {
@@ -29,12 +31,16 @@ pub fn setup_process() {
     crate::hashkeys::install();
 }
 
-pub fn exec_job(job: &Job, refc: &Arc<Mutex<RefClient>>) -> run::RunOutput {
+pub fn exec_job(
+    job: &Job,
+    refc: &Arc<Mutex<RefClient>>,
+    pool: Option<&run::CallerPool>,
+) -> run::RunOutput {
     let spec = match &job.spec {
         Some(s) => s.clone(),
         None => gen::generate(job.seed, if job.flavor.is_empty() { "n" } else { &job.flavor }),
     };
-    run::run(spec, refc, job.log, job.want_spec)
+    run::run(spec, refc, pool, job.log, job.want_spec, job.want_trace)
 }
 
 pub fn worker_main(sock: &str) -> ! {
@@ -46,6 +52,7 @@ pub fn worker_main(sock: &str) -> ! {
             std::process::exit(2);
         }
     };
+    let pool = run::CallerPool::new(crate::model::MAX_THREADS);
     let stdin = std::io::stdin();
     let stdout = std::io::stdout();
     let mut out = std::io::BufWriter::new(stdout.lock());
@@ -69,7 +76,7 @@ pub fn worker_main(sock: &str) -> ! {
                 continue;
             }
         };
-        let o = exec_job(&job, &refc);
+        let o = exec_job(&job, &refc, Some(&pool));
         let _ = writeln!(out, "{}", serde_json::to_string(&o.rec).unwrap());
         let _ = out.flush();
         if o.poisoned {
